@@ -36,10 +36,17 @@ func (g *GenesisState) Validate() error {
 		return core.ErrNilPointer.Wrap("executor genesis state")
 	}
 
+	// NOTE: the genesis initialization refuses to pause an ID which is already
+	// paused, so repeated entries cannot be initialized.
+	pausedActionIDs := make(map[core.ActionID]struct{})
 	for _, id := range g.PausedActionIds {
 		if err := id.Validate(); err != nil {
 			return err
 		}
+		if _, found := pausedActionIDs[id]; found {
+			return core.ErrAlreadySet.Wrapf("repeated paused action ID %s", id)
+		}
+		pausedActionIDs[id] = struct{}{}
 	}
 
 	return nil
